@@ -4,3 +4,7 @@ import M17.Spec.Golay
 import M17.Lemmas.Bits
 import M17.Lemmas.Golay
 import M17.Props.C04
+import M17.Model.Crc
+import M17.Spec.Crc
+import M17.Lemmas.Crc
+import M17.Props.C09
